@@ -25,6 +25,74 @@ CHECKS = {
    technique='stateless model checking of the 3-thread copy pipeline: exhaustive enumeration of interleavings and short-read answers up to a deviation bound',
    text='Every execution with <= d deviations (quick 2 for all inputs and 3 for the small/header inputs, thorough 4) of main/reader/writer scheduling and short reads, for all lengths 0..12 and around 1x/2x/3x the 64 KiB buffer, with every near-miss of the BZh[1-9] magic as prefix; output must equal the input, status 0, stderr empty, termination; inputs that do start with a stream header must end exactly as under plain -d.',
    note='Pipe fragmentation is modelled as read() returning fewer bytes than asked; vsched trusted.'),
+ 'C01': dict(cat='model_checking', engine='codecx (E6) + lbzx batch + lbzx explorer (E1/E2)', ref='DESIGN.md §5 C01',
+   technique='bounded-exhaustive enumeration of inputs x block capacities through the real codec chain (round-trip oracle) plus stateless model checking (delay-bounded schedule enumeration) of whole-program compression and decompression runs',
+   text='(a) every string over {a,b} up to length 10 (thorough 13), over {a,b,c} up to 6 (8), run families around the 4/259 limits and every alphabet size, for every block capacity, through collect->encode->transmit->parse->retrieve->decode->emit; (b) the compression corpus (kinds corpus, all levels, both modes, block-boundary families, sweeps) x W, each output decompressed again by lbzip2 with another W; (c) every execution with <= d deviations (quick 2, thorough 3) of compression runs (each distinct output decompressed) and of a decompression run. Oracle: bytes back == input, status 0, stderr empty.',
+   note='Unbounded "every input" is decided for the enumerated scopes only; vsched trusted for (b),(c).'),
+ 'C02': dict(cat='exploration', engine='lbzx batch + bzref inspector (E3) + libbz2', ref='DESIGN.md §5 C02',
+   technique='bounded-exhaustive enumeration of inputs/levels/modes through the real compressor; every produced stream walked bit by bit by an independent inspector (reference model of the format) and decoded by libbz2',
+   text='Every stream produced for the compression corpus (all levels, default and --sequential, runs meeting the block end from both sides, alphabet sweep 1..148 forcing the one-table + dummy-table case, length sweep covering every padding amount, all strings over {a,b} to length 7 (10)) is decoded by libbz2 to the input and inspected: header digit, per-block RLE size <= N*100000, block and stream CRCs, no randomisation, primary index, 2..6 tables all complete with lengths 1..20 reached by in-range delta steps, selector counts, no trailing bytes.',
+   note='Trusted: bzref inspector (cross-checked with libbz2). Scope: the enumerated inputs.'),
+ 'C04': dict(cat='model_checking', engine='codecx (E6) + lbzx batch + refpack reference model', ref='DESIGN.md §5 C04',
+   technique='explicit enumeration of collect() operation sequences (inputs x capacities x every cut into <= 3 calls) on the real resumable state machine against a reference greedy packer; whole-program block lists against the same reference',
+   text='(a) collect() as a state machine: all strings over small alphabets, run families around 4/259, capacities 1..40, 255..270, 515..525, every cut of the input into up to three calls; after every call consumed count, block-full flag, block bytes and CRC equal the reference packer; canonical (rle_state, continues-run, room) states are counted. (b) whole program: for every (input, level, mode) of the compression corpus the list of (RLE size, CRC) per block equals the reference packing of the whole input (--sequential) or of N*100000-byte pieces (default).',
+   note='Trusted: refpack.c (84 lines, written from the statement); bzref for reading block sizes/CRCs back.'),
+ 'C05': dict(cat='exploration', engine='bzgen (E4) -> lbzx batch (E1) vs bzref (E3)', ref='DESIGN.md §5 C05',
+   technique='bounded-exhaustive differential checking: generator-built streams over every degree of freedom of the format plus all single-bit/truncation mutants, real lbzip2 -d against an independent strict reference decoder',
+   text='For every candidate (generator-built base streams of families A..J: small plaintexts, alphabet sizes, capacity limits, primary index, randomised blocks, missing run counts, every complete code over small alphabets, incomplete/oversubscribed tables, 20-bit ladder, delta paths with excursions to 0/21, 2..6 tables x selector sequences, surplus selectors, 8 bit alignments, concatenations, trailing data; plus every single-bit flip and truncation of the small ones and field-aware mutants of the others), under W=1 stock and W=2 tiny I/O granularity: exit 0 implies the strict reference accepts and the bytes are equal.',
+   note='Trusted: bzref (agreed with libbz2 on every candidate of the run, else HARNESS-ERROR). Scope: within one bit-level deviation / truncation of a generated valid stream.'),
+ 'C06': dict(cat='exploration', engine='bzgen (E4) -> lbzx batch (E1) vs bzref (E3)', ref='DESIGN.md §5 C06',
+   technique='bounded-exhaustive enumeration of conforming streams over the format\'s degrees of freedom, real lbzip2 -d against the generator\'s plaintext / reference decoder',
+   text='Every candidate of the C05 enumeration that the strict reference accepts (and that is not one of the two documented exceptions) must be decoded with status 0, equal bytes and empty stderr, for W=1 stock and W=2 tiny granularity; includes randomised blocks, different levels concatenated, all 8 alignments, 20-bit codes, 2..6 tables with all selector triples, surplus selectors up to 32767, primary index at the end.',
+   note='Same trusted base as C05. bzip2-produced files at every level come from libbz2 via Python.'),
+ 'C07': dict(cat='fault_enumeration', engine='bzgen (E4) -> lbzx batch (E1) vs bzref (E3) + file-operand leg', ref='DESIGN.md §5 C07',
+   technique='exhaustive single-fault enumeration (every bit flip, every truncation length) over generated streams, real lbzip2 -d; outcome oracle status 1 + diagnostic + no signal/hang; file operand leg checks no output remains',
+   text='Every candidate of the C05 enumeration that the reference rejects (or that is a documented exception) must end with exit status exactly 1, a diagnostic on stderr, no signal, no deadlock/horizon, under both configurations; a subset is run with FILE operands on the real binary to check that no output file remains.',
+   note='Same trusted base as C05; hang = scheduler horizon / no enabled thread.'),
+ 'C08': dict(cat='exploration', engine='ASan+UBSan / MSan builds of lbzx and codecx', ref='DESIGN.md §5 C08',
+   technique='sanitizers as per-execution oracle over the bounded-exhaustive enumerations of C01/C02/C04/C05-C07/C09/C14/C20 (no separate sampling)',
+   text='The decompression candidate set (two configurations) and the compression corpus (compress + decompress) are re-run in an AddressSanitizer+UBSan whole-program build; the function-level enumerations (codec chain, collect sequences, retrieve/emit splits with exact-size allocations, scanner, code construction) run under ASan+UBSan and MemorySanitizer. Any report or crash is a violation.',
+   note='Sanitizers see only what the enumerated inputs execute.'),
+ 'C09': dict(cat='model_checking', engine='codecx (E6) + lbzx batch + explorer (E1/E2) + hook H1', ref='DESIGN.md §5 C09',
+   technique='exhaustive enumeration of buffer-boundary positions (every word split of retrieve() input, every composition of emit() output, every input-block size) and delay-bounded schedule enumeration, differential oracle',
+   text='(a) retrieve() with every 1/2/3-piece word split, emit() with every composition of small outputs into buffer sizes: equal to the one-shot call. (b) each of ~25 valid/invalid streams under every input block size 4..len, a ladder of output buffer sizes, W 1..4, -d/-dc/-t/-dk/-cdf, read fragmentation; same status and bytes as the reference; partial outputs of failing inputs prefixes of each other; FILE output of the real binary. (c) all executions with <= d deviations (quick 2, thorough 3), W 2..3, three granularities.',
+   note='Granularities set through hook H1. Trusted: vsched, bzref.'),
+ 'C10': dict(cat='model_checking', engine='bzgen planted headers + lbzx explorer (E1/E2) + hooks H1/H2', ref='DESIGN.md §5 C10',
+   technique='stateless model checking: delay-bounded enumeration of interleavings of parser/scanner/retriever tasks on inputs with planted block-header patterns, oracle = sequential reference decoding',
+   text='Streams with the 48-bit pattern planted in selector lists at every bit phase, across input-block boundaries, in trailing data (fake blocks, whole streams, broken streams), after broken streams; W 1..3 x input block sizes x three canonical schedules, and every execution with <= d deviations (quick 2, thorough 3) for W 2..3. Status and bytes must equal the sequential reference decoding; scheduler counters conserved. H2 events count candidates created/adopted/discarded/aborted/rejected so vacuity is visible.',
+   note='Trusted: vsched, bzref. Complete decodable spurious blocks are constructible only in trailing data / after a broken stream.'),
+ 'C14': dict(cat='model_checking', engine='codecx (E6)', ref='DESIGN.md §5 C14',
+   technique='explicit-state product construction of mini_dfa with the definitional matcher (complete language equivalence), all 49x256 big_dfa entries, exhaustive placement enumeration for scan()',
+   text='All reachable (mini_dfa state, reference state) pairs agree on prefix length and acceptance; every big_dfa entry equals eight mini_dfa steps; scan() on buffers with the pattern at every bit offset over 101 backgrounds (near misses, repeated prefixes, overlaps), second copies, every start bit 0..64 and skip 0..168: reported position is exactly a real occurrence + 32 bits and no complete occurrence in range is missed.',
+   note='Complete for the automata; scan() scope = 6..8-word buffers.'),
+ 'C15': dict(cat='fault_enumeration', engine='bzref field offsets + lbzx batch + explorer', ref='DESIGN.md §5 C15',
+   technique='exhaustive single-bit fault enumeration over every stored CRC field of a corpus, whole program, plus delay-bounded schedule enumeration for selected fields',
+   text='Every one of the 32 bits of every stored block CRC and stream CRC of 7 (9) multi-block / multi-stream / odd-alignment / randomised files is flipped; each mutant must give exit status 1 for W in {1,2,4} (and 3, -t) at stock and small input block sizes; first/middle/last CRC of each file additionally under all schedules with <= 1 (2) deviations.',
+   note='Trusted: bzref for field offsets (a wrong offset would make the unflipped control fail).'),
+ 'C16': dict(cat='fault_enumeration', engine='lbzx explorer with file-system fixtures and file-operation interposition', ref='DESIGN.md §5 C16',
+   technique='exhaustive crash-point / fault enumeration: every system-call position x errno, SIGKILL before/after each call, SIGINT/SIGTERM at every scheduling point, combined with scheduling deviations up to a bound; end-state oracle on the directory',
+   text='For 6 (12) one-operand histories (compress/decompress, 0/1/3 blocks, -k, corrupt input) every execution with <= d deviations (quick 2, thorough 3), a deviation being an errno failure of one open/read/write/close/fchown/fchmod/futimens/unlink/lstat call, SIGKILL at one call, SIGINT/SIGTERM at one scheduling point, or one scheduling choice; after each the directory must be S1 (input unchanged, nothing else) or S2 (complete output, input gone unless -k) consistent with the exit status / signal.',
+   note='Real main.c/signals.c/process.c code with real file system calls in a scratch directory; kernel signal/I-O semantics are vsched\'s model.'),
+ 'C17': dict(cat='exploration', engine='lbzx batch with file-system fixtures vs table model', ref='DESIGN.md §5 C17',
+   technique='exhaustive configuration-product enumeration against a reference rule table written from the statement/man page',
+   text='Mode x legal subsets of -k/-c/-t/-f x operand type (regular, symlink, hard-linked, directory, missing) x 9 name suffixes x pre-existing output (absent/regular/read-only) x permission bits x timestamps, one fresh directory per case, whole program: action (skip+warn 4 / process / stream), output name, sentinel survival, mode bits, atime/mtime, input removal, output bytes.',
+   note='Runs as root: permission-denied cases cannot be produced.'),
+ 'C18': dict(cat='model_checking', engine='lbzx batch with fixtures + explorer', ref='DESIGN.md §5 C18',
+   technique='enumeration of all operand sequences up to depth 2 (3) with a differential oracle (combined invocation vs one invocation per operand), plus delay-bounded schedule enumeration of two-operand runs',
+   text='All sequences of operand kinds (small, multi-block, empty, incompressible, skipped-by-suffix, hard link, missing, corrupt, non-bzip2) to depth 2 (3) in modes compress, compress -u, decompress, -dc, -t, -cdf, W in {1,3}: per-operand outputs and file effects equal those of separate invocations up to the first fatal one, status 1/4/0 rule; two-operand invocations under every schedule with <= d deviations.',
+   note='Differential: no hand-written expected values.'),
+ 'C20': dict(cat='exploration', engine='codecx (E6) + bzref inspector + refhuff reference', ref='DESIGN.md §5 C20',
+   technique='bounded-exhaustive enumeration of frequency vectors through the real assign_codes() and of every table written for the corpus, against an independent length-limited optimum',
+   text='(a) assign_codes() on all frequency vectors of alphabet 3..5 (6) with entries 0..4 (6), strided 7..8 (10), Fibonacci-like families that hit the 20-bit limit, constant/geometric/two-level to 258: lengths 1..20, Kraft 1, cost == optimum for its own longest code. (b) every table used by a group in every block of the compression corpus: sum count*len == optimum for that max length.',
+   note='Reference optimum (package-merge on sorted lists) is validated against exhaustive search inside each run.'),
+ 'C21': dict(cat='fault_enumeration', engine='lbzx explorer (E1/E2)', ref='DESIGN.md §5 C21',
+   technique='exhaustive fault enumeration: an I/O error at every read()/write() position x errno x signal disposition, combined with delay-bounded scheduling deviations; deadlock/horizon detection',
+   text='Filter runs of compression (both modes), decompression and -cdf copy, W 1..3: every execution with <= d deviations (quick 2, thorough 3) where a deviation is EIO on one read, EIO/ENOSPC/EPIPE/EFBIG on one write, or a scheduling choice; default and ignored SIGPIPE/SIGXFSZ. Oracle: ends (no deadlock, no horizon), status 1 or death by SIGPIPE/SIGXFSZ, never 0, diagnostic unless EPIPE/EFBIG.',
+   note='Signal semantics are vsched\'s model (thread-directed SIGPIPE/SIGXFSZ, sigsuspend, masks).'),
+ 'C22': dict(cat='model_checking', engine='lbzx batch with fixtures vs rule table', ref='DESIGN.md §5 C22',
+   technique='enumeration of all option-token sequences up to depth 2 (3) x invocation names x token placement, with differential (env vs argv, no-op insertion) and rule-table oracles',
+   text='7 invocation names x all sequences of <= 2 (3) tokens from 19 mode/destination tokens x placements (argv; moved into LBZIP2; split over LBZIP2/BZIP2/BZIP) x {filter, FILE}: environment placement == command line; inserting ignored options/--small changes nothing; mode and destination follow the rule table from the statement.',
+   note='Combinations the statement leaves undefined are subject to the differential oracles only.'),
 }
 
 NOT_YET = 'check not built yet in this round (work in progress, see DESIGN.md §10)'
